@@ -1147,3 +1147,53 @@ func constantInt(k constant.Value) (int64, bool) {
 	}
 	return constant.Int64Val(k)
 }
+
+// goStart: the instruction starts a goroutine — a go statement, or (*sync.WaitGroup).Go(f), which runs f in a new
+// goroutine and counts it done when f returns. target is the function started when it is statically known.
+func goStart(in ssa.Instruction) (target *ssa.Function, ok bool) {
+	fnOf := func(v ssa.Value) *ssa.Function {
+		switch x := v.(type) {
+		case *ssa.MakeClosure:
+			f, _ := x.Fn.(*ssa.Function)
+			return f
+		case *ssa.Function:
+			return x
+		}
+		return nil
+	}
+	switch x := in.(type) {
+	case *ssa.Go:
+		if f := fnOf(x.Call.Value); f != nil {
+			return f, true
+		}
+		return x.Call.StaticCallee(), true
+	case *ssa.Call:
+		if s := x.Call.StaticCallee(); s != nil && funcIs(s, "sync", "WaitGroup", "Go") && len(x.Call.Args) == 2 {
+			return fnOf(x.Call.Args[1]), true
+		}
+	}
+	return nil, false
+}
+
+func isGoStart(in ssa.Instruction) bool {
+	_, ok := goStart(in)
+	return ok
+}
+
+// calleePkgName: package path and name of a statically called function; generic instantiations report their origin.
+func calleePkgName(call ssa.CallInstruction) (pkg, name string) {
+	f := call.Common().StaticCallee()
+	if f == nil {
+		return "", ""
+	}
+	if o := f.Origin(); o != nil {
+		f = o
+	}
+	if obj := f.Object(); obj != nil && obj.Pkg() != nil {
+		return obj.Pkg().Path(), obj.Name()
+	}
+	if f.Pkg != nil {
+		return f.Pkg.Pkg.Path(), f.Name()
+	}
+	return "", f.Name()
+}
